@@ -302,6 +302,21 @@ def _get_unused_imports(ast_tree: ast.Module) -> Collection[str]:
             full_name = re.sub(r"\.[^\.]*$", "", full_name)
             names.add(full_name)
 
+    # A name that the module body also binds in another way (assignment, def, class, loop target,
+    # handler name) may get the value it ends up with from the import: name uses do not tell.
+    stack = list(ast_tree.body)
+    while stack:
+        node = stack.pop()
+        if isinstance(node, (ast.FunctionDef, ast.AsyncFunctionDef, ast.ClassDef)):
+            names.add(node.name)
+            continue
+        if isinstance(node, ast.Name) and isinstance(node.ctx, ast.Store):
+            names.add(node.id)
+        if isinstance(node, ast.ExceptHandler) and node.name:
+            names.add(node.name)
+        if not isinstance(node, ast.Lambda):
+            stack.extend(ast.iter_child_nodes(node))
+
     # `import a.b` binds the name `a`, so it is in use whenever `a` is.
     names.update(name for name in imports if name.split(".")[0] in names)
 
